@@ -193,6 +193,7 @@ fn print_bof<W: Write>(
     prev_chunk_idx: usize,
     chunk_idx: usize,
     prev_chunk_may_be_truncated: bool,
+    field_complete: bool,
 ) -> Result<usize> {
     let mut bof_idx = bof_idx;
 
@@ -207,7 +208,7 @@ fn print_bof<W: Write>(
         if b.matches(curr_field).unwrap() {
             let prepend_delimiter = !prev_chunk_may_be_truncated
                 && curr_field > 1
-                && (opt.join || (b.l != Side::Some(curr_field)));
+                && b.l != Side::Some(curr_field);
 
             let delimiter = opt.replace_delimiter.unwrap_or(opt.delimiter);
 
@@ -218,8 +219,12 @@ fn print_bof<W: Write>(
                 prepend_delimiter,
             )?;
 
-            if b.r == Side::Some(curr_field) {
+            if field_complete && b.r == Side::Some(curr_field) {
                 bof_idx += 1;
+
+                if opt.join && !b.is_last {
+                    stdout.write_all(&[delimiter])?;
+                }
             }
         }
     }
@@ -236,8 +241,9 @@ fn print_filler_or_fallbacks<W: Write>(
     stdout: &mut W,
     bof_idx: usize,
     opt: &StreamOpt,
-) -> Result<()> {
-    for bof in opt.bounds[bof_idx..].iter() {
+    num_fields: i32,
+) -> Result<usize> {
+    for bof in opt.bounds[bof_idx.min(opt.bounds.len())..].iter() {
         let b = match bof {
             BoundOrFiller::Filler(f) => {
                 stdout.write_all(f.as_bytes())?;
@@ -246,8 +252,9 @@ fn print_filler_or_fallbacks<W: Write>(
             BoundOrFiller::Bound(b) => b,
         };
 
-        if b.r == Side::Continue {
-            break;
+        if b.r == Side::Continue && b.matches(num_fields).unwrap() {
+            // open range that has been reached: it's complete
+            continue;
         }
 
         let output = if b.fallback_oob.is_some() {
@@ -259,9 +266,13 @@ fn print_filler_or_fallbacks<W: Write>(
         };
 
         stdout.write_all(output)?;
+
+        if opt.join && !b.is_last {
+            stdout.write_all(&[opt.replace_delimiter.unwrap_or(opt.delimiter)])?;
+        }
     }
 
-    Ok(())
+    Ok(opt.bounds.len())
 }
 
 fn cut_bytes_stream<R: BufRead, W: Write>(
@@ -301,19 +312,28 @@ fn cut_bytes_stream<R: BufRead, W: Write>(
                 eol_reached = chunk[chunk_idx] == eol;
                 bytes_to_consume = chunk_idx + 1;
 
-                // Handle field content before delimiter/EOL
-                if bytes_to_consume > 1 {
-                    bof_idx = print_bof(
-                        stdout,
-                        opt,
-                        bof_idx,
-                        curr_field,
-                        chunk,
-                        chunk_part_start_idx,
-                        chunk_idx,
-                        prev_chunk_may_be_truncated,
-                    )?;
+                if eol_reached
+                    && curr_field == 1
+                    && !prev_chunk_may_be_truncated
+                    && chunk_part_start_idx == chunk_idx
+                {
+                    // empty record
+                    stdout.write_all(&[opt.eol.into()])?;
+                    break;
                 }
+
+                // Handle field content before delimiter/EOL
+                bof_idx = print_bof(
+                    stdout,
+                    opt,
+                    bof_idx,
+                    curr_field,
+                    chunk,
+                    chunk_part_start_idx,
+                    chunk_idx,
+                    prev_chunk_may_be_truncated,
+                    true,
+                )?;
 
                 prev_chunk_may_be_truncated = false;
                 // Update chunk_part_start_idx to point to the next field
@@ -321,7 +341,7 @@ fn cut_bytes_stream<R: BufRead, W: Write>(
 
                 // EOL handling
                 if eol_reached {
-                    print_filler_or_fallbacks(stdout, bof_idx, opt)?;
+                    bof_idx = print_filler_or_fallbacks(stdout, bof_idx, opt, curr_field)?;
                     stdout.write_all(&[opt.eol.into()])?;
                     break;
                 }
@@ -329,7 +349,7 @@ fn cut_bytes_stream<R: BufRead, W: Write>(
                 // If we've found the last field we're interested in
                 if Side::Some(curr_field) == last_interesting_field {
                     // Print any remaining fillers (no fallbacks, since we're done with the fields)
-                    print_filler_or_fallbacks(stdout, bof_idx, opt)?;
+                    bof_idx = print_filler_or_fallbacks(stdout, bof_idx, opt, curr_field)?;
 
                     // Attempt to skip to EOL (if it's not in this chunk we'll wait for the next chunk)
                     if let Some(eol_idx) = memchr::memchr(eol, &chunk[bytes_to_consume..]) {
@@ -359,6 +379,7 @@ fn cut_bytes_stream<R: BufRead, W: Write>(
                         chunk_part_start_idx,
                         chunk.len(),
                         prev_chunk_may_be_truncated,
+                        false,
                     )?;
                     prev_chunk_may_be_truncated = true;
                 }
@@ -373,7 +394,19 @@ fn cut_bytes_stream<R: BufRead, W: Write>(
 
         // Handle EOF at end of line
         if eof && !eol_reached {
-            print_filler_or_fallbacks(stdout, bof_idx, opt)?;
+            // the last field ends here
+            bof_idx = print_bof(
+                stdout,
+                opt,
+                bof_idx,
+                curr_field,
+                &[],
+                0,
+                0,
+                prev_chunk_may_be_truncated,
+                true,
+            )?;
+            print_filler_or_fallbacks(stdout, bof_idx, opt, curr_field)?;
             stdout.write_all(&[opt.eol.into()])?;
             break 'new_line;
         }
